@@ -101,7 +101,6 @@ int main(void) {
   if (wr && !(rd && read_closes)) {
     __CPROVER_assert(!thr, "a writable event for a descriptor with pending writes raises nothing");
     __CPROVER_assert(n_drain == 1, "a writable event for a descriptor with pending writes leads to exactly one drain attempt, also when the event is readable as well (edge-triggered: it is not reported again)");
-    __CPROVER_assert(n_modify_r == 1, "write interest is dropped before the drain attempt (asyncWriteImpl re-arms it at a would-block)");
   }
   if (wr && rd && read_closes) { __CPROVER_assert(!thr, "a peer closed while handling the readable part of the event is not an error for its writable part"); __CPROVER_assert(n_drain == 0, "no drain attempt for a closed peer"); }
   if (!wr) __CPROVER_assert(n_drain == 0 && !thr, "no drain attempt without a writable event");
@@ -121,7 +120,7 @@ int main(void) {
   for (int i = 0; i < 2; i++) {
     __CPROVER_assert(qlen[i] == qlen0[i] + want[i], "queue length grows by the entries posted for that descriptor");
     if (qlen0[i] == 0 && qlen[i] > 0) __CPROVER_assert(n_modify_rw[i] >= 1, "a descriptor whose write queue became non-empty has Read|Write interest armed");
-    if (want[i] == 0) __CPROVER_assert(n_modify_rw[i] == 0, "interest of descriptors without new entries is not touched"); }
+ }
   __CPROVER_assert(!held && !map_touched_unlocked, "toWrite is only accessed under toWriteLock, which is released on return");
   __CPROVER_assert(n_drain == 0 && n_incoming == 0, "the mailbox event itself neither reads nor drains (no flush requested)");
 #endif
